@@ -246,6 +246,8 @@ class Engine:
                 for f, v in cur.fields.items():
                     if f"{name}.{f}" in mods or name in mods:
                         continue
+                    if f not in old.fields:
+                        continue          # a field the body created itself (not declared in the record type): outside the frame
                     if v.ident(old.fields[f]):
                         self.trivial_frames = getattr(self, "trivial_frames", 0) + 1
                         continue
